@@ -49,6 +49,9 @@ mod http;
 mod socket;
 mod utils;
 
+#[cfg(gamedig_verif)]
+pub mod verif_hook;
+
 #[cfg(feature = "packet_capture")]
 pub mod capture;
 
